@@ -598,12 +598,11 @@ class GitStream(Stream):
             ign = set(r["ignored"])
             tracked = r["tracked"]
 
-            def in_untracked_dir(x):
-                parts = x.split("/")
-                return any(not any(t.startswith("/".join(parts[:k]) + "/") for t in tracked) for k in range(1, len(parts)))
-            # every wrongly examined file is ignored by Git *and* lies inside a directory without any tracked file:
-            # `git ls-files --others --ignored --directory` does not list such files (the directory is reported as a whole or not at all)
-            if extra and all((x in ign or any(x.startswith(i + "/") for i in ign)) and in_untracked_dir(x) for x in extra):
+            from c03vcs import in_unignored_untracked_dir
+            # every wrongly examined file is ignored by Git *and* lies inside a directory without any tracked file that is not
+            # ignored itself: `git ls-files --others --ignored --directory` does not list such files (the directory is reported
+            # as a whole or not at all).  An ignored directory whose content is examined is not this shape.
+            if extra and all((x in ign or any(x.startswith(i + "/") for i in ign)) and in_unignored_untracked_dir(x, ign, tracked) for x in extra):
                 return "c03-git-ignored-in-untracked-dir"
         return None
 
@@ -638,11 +637,16 @@ class TreeStreamCmp(TreeStream):
         return base
 
 
+import c03vcs  # noqa: E402  (vcs.py's own logic: streams vcs, vcsgit, vcsdetect)
+
 PROPERTY = Property(
     pid="C03",
-    streams=[NameStream(), TreeStreamCmp(), GitStream()],
+    streams=[NameStream(), TreeStreamCmp(), GitStream(), c03vcs.VcsCannedStream(), c03vcs.VcsGitStream(), c03vcs.VcsDetectStream()],
     assumptions=[
-        "Git is an oracle (`git check-ignore`, .gitmodules); only Git is installed, the Mercurial/Jujutsu/Pijul strategies are not exercised",
+        "vcs.py's own logic is modelled from the raw command outputs (Model/Vcs.lean); what remains an oracle is Git's ignore semantics: the contract "
+        "between `git ls-files --directory` and `git check-ignore` (Spec.Vcs.ListingContract) is a hypothesis, tested on real repositories",
+        "only Git is installed: the Mercurial/Jujutsu/Pijul strategies are exercised on canned command outputs only",
+        "UTF-8 decoding of the command outputs and Path.resolve() on symbolic links inside the project are outside the model",
         "os.walk / Path.is_file / is_dir / is_symlink / stat are modelled by the tree type (file with size, symlink, directory)",
         "file names containing a newline are outside the name-rule oracle ('$' and '.' treat '\\n' specially) — documented boundary",
     ],
